@@ -382,6 +382,8 @@ def thunks():
     reg("plot_diagrams", lambda P: pd_(P), ["A", "B"], plot=True, forms=pf)
     reg("plot_diagrams_lifetime", lambda P: pd_(P, lifetime=True, labels=P["labels"]), ["A", "B", "labels"], plot=True, forms=pf)
     reg("plot_diagrams_single_inf", lambda P: (lambda ax: (persim.plot_diagrams(P["I"], ax=ax, lifetime=True, title="t"), ax)[1])(_fresh_ax()), ["I"], plot=True, forms=("f64", "f32"))
+    reg("plot_diagrams_short_labels", lambda P: pd_(P, labels=P["labels1"], legend=True), ["A", "B", "labels1"], plot=True, forms=pf)
+    reg("plot_diagrams_options", lambda P: pd_(P, labels=P["labels"], colormap="seaborn-v0_8", size=35, ax_color=P["ax_color"], diagonal=False, lifetime=True, title="T"), ["A", "B", "labels", "ax_color"], plot=True, forms=pf)
     reg("plot_diagrams_plot_only", lambda P: pd_(P, plot_only=P["plot_only"], xy_range=P["xy_range"], legend=False), ["A", "B", "plot_only", "xy_range"], plot=True, forms=pf)
 
     def bm(P):
@@ -457,7 +459,7 @@ def make_pool(f, variant=0):
         "IL": form(DIL, dform if dform in ("list", "f32") else "f64"),
         "G1": form(G1, gf), "G2": form(G2, gf), "G3": form(G3, gf),
         "CY6": form(cycle(6), gf), "CY8": form(cycle(8), gf), "ST5": form(star(5), gf),
-        "order": np.array([1.0, 1.0]), "order0": np.array([0.0, 2.0]), "coeffs": [2.0, -1.0], "labels": ["first", "second"],
+        "order": np.array([1.0, 1.0]), "order0": np.array([0.0, 2.0]), "coeffs": [2.0, -1.0], "labels": ["first", "second"], "labels1": ["only"], "ax_color": np.array([0.1, 0.2, 0.3]),
         "VALS": form([[0, 1, 2, 1, 0], [0, 0, 1, 0, 0]], "f64" if f == "list" else f),
         "CP": [[[0.0, 0.0], [1.0, 1.0], [2.5, -0.5], [4.0, 0.0]], [[1.0, 0.0], [2.0, 1.0], [3.0, 0.0]]],
         "val_inf_low": VARIANTS[variant][0] * 2.5 + VARIANTS[variant][1], "win": [VARIANTS[variant][0] * 1.0 + VARIANTS[variant][1], VARIANTS[variant][0] * 6.5 + VARIANTS[variant][1]],
